@@ -252,6 +252,13 @@ class Component( ComponentLevel7 ):
     for func, obj_name in provided_func_calls:
       parent._dsl.func_calls[func].add( eval(obj_name) )
 
+    # The connections and update block metadata put back above may have
+    # lazily created more slices/fields of the new component's signals.
+    # Register them, and the interfaces of the new component, as well.
+    added_objs = obj._collect_all_single()
+    top._dsl.all_signals       |= { x for x in added_objs if isinstance( x, Signal ) }
+    top._dsl.all_named_objects |= added_objs
+
     del NamedObject._elaborate_stack
 
   def _delete_component( top, obj ):
@@ -305,6 +312,8 @@ class Component( ComponentLevel7 ):
 
       removed_connectables = removed_signals | removed_method_ports
       top._dsl.all_named_objects -= removed_connectables
+      # interfaces are named objects too
+      top._dsl.all_named_objects -= foo._collect_all_single()
 
       removed_consts = set()
       if isinstance( foo, Placeholder ):
